@@ -48,8 +48,8 @@ CLAIMED = {
          "Trusted: harness/src/sim/tcp_peer.rs (receiver model, segment generator) and harness/src/indep (TCP/IP builder+parser). 'Advertised window' is the highest right edge ever put on the wire (weakest sound reading).",
          "DESIGN.md §4 C04"),
  "C17": ("runtime monitor: one event at a time (one injected segment, one egress pass with a time step, or one API call) with state() before/after, judged against an explicit table of permitted RFC 9293 edges whose guards are computed from the monitor's own bookkeeping",
-         "Exploration by runtime monitoring: the scripted-peer simulation in state-machine focus (more RSTs, closes, aborts, ACK numbers around ISS / SND.UNA / SND.NXT / FIN+1 / beyond), 20 000 quick / 600 000 thorough conversations. Every state change must be an edge of the RFC 9293 diagram caused by the prescribed event: ESTABLISHED only on ack==ISS+1, CLOSE-WAIT/CLOSING/TIME-WAIT only on an in-order in-window FIN, FIN-WAIT-2 / LAST-ACK->CLOSED / CLOSING->TIME-WAIT only on ack==own FIN+1, resets only by an RST whose sequence number is inside the advertised window (or the expected RST|ACK in SYN-SENT), TIME-WAIT ends by its 10 s timer and only by it. Evidence lists the distinct (state,event,next) edges observed and the number of forbidden-edge attempts exercised.",
-         "Trusted: the transition table and event classification in harness/src/sim/tcp_peer.rs. Unchanged states are never judged. close() in SYN-RECEIVED is a recorded defect (known_findings.json); runs containing it are attributed to it.",
+         "Exploration by runtime monitoring: the scripted-peer simulation in state-machine focus (more RSTs, closes, aborts, ACK numbers around ISS / SND.UNA / SND.NXT / FIN+1 / beyond), 20 000 quick / 600 000 thorough conversations. Every state change must be an edge of the RFC 9293 diagram caused by the prescribed event: ESTABLISHED only on ack==ISS+1, CLOSE-WAIT/CLOSING/TIME-WAIT only on an in-order in-window FIN, FIN-WAIT-2 / LAST-ACK->CLOSED / CLOSING->TIME-WAIT only on ack==own FIN+1, resets only by an RST whose sequence number is inside the advertised window (or the expected RST|ACK in SYN-SENT), TIME-WAIT ends by its 10 s timer and only by it. In half of the conversations a cooperative epilogue follows (in-order, in-window stream, PSH on data, FIN|PSH|ACK at the end, cumulative ACKs, reliable link, application reading): there the FIN edge must be *taken* - whole stream delivered, FIN acknowledged, a FIN-received state reached. A third of the cases reuse the socket for further connections. Evidence lists the distinct (state,event,next) edges observed and the number of forbidden-edge attempts exercised.",
+         "Trusted: the transition table and event classification in harness/src/sim/tcp_peer.rs. Unchanged states are never judged during the hostile script (only in the cooperative epilogue a transition is owed). close() in SYN-RECEIVED is a recorded defect (known_findings.json); runs containing it are attributed to it.",
          "DESIGN.md §4 C17"),
  "C06": ("runtime monitor: seeded generators for every wire Repr type; emit into zero/0xFF/garbage buffers of the declared length, parse back and compare; mutated-but-parsable packets re-emitted and re-parsed",
          "Exploration by runtime monitoring: 28 wire representation types (Ethernet ... 6LoWPAN fragments), ~2*10^5 (quick) / ~1.4*10^7 (thorough) generated values with boundary-biased fields; three passes per value (buffer independence + no panic, parse(emit(r)) == r, and parse(emit(parse(mutant))) == parse(mutant)). Every domain restriction applied by the generators is listed in the evidence file's assumptions.",
@@ -64,8 +64,8 @@ CLAIMED = {
          "Trusted: the reference implementation in harness/src/mon/c08a.rs and harness/src/indep/cksum.rs (u64 accumulator over big-endian words, fold, complement).",
          "DESIGN.md §4 C08"),
  "C01": ("runtime monitor: two real endpoints over a seeded faulty link, offset-keyed stream content compared at every recv (history + executable model)",
-         "Exploration by runtime monitoring: 15 000 (quick) / 600 000 (thorough) seeded executions of two real smoltcp interfaces (IPv4/IPv6, IP and Ethernet media, MTU 68..1500, buffers 1 B..256 KiB with window scaling, none/Reno/CUBIC, Nagle, delayed ACK, timestamps) joined by a link that drops, duplicates, delays, reorders and corrupts one byte per seeded fate schedule; every byte handed to either application is compared with the peer's byte at that stream offset and Finished is only accepted once the peer closed and everything was handed over. Evidence reports bytes compared, retransmissions, reorderings, corruptions and sequence wraps actually observed.",
-         "Trusted: the simulator and stream oracle (harness/src/sim/tcpsim.rs), the independent TCP/IP parser used for statistics. Corruption is single-byte (always detected). Executions not generated are not judged; ISN wrap coverage is whatever the seeded ISNs produce (counted in evidence).",
+         "Exploration by runtime monitoring: 15 000 (quick) / 600 000 (thorough) seeded executions of two real smoltcp interfaces (IPv4/IPv6, IP and Ethernet media, MTU 68..1500, buffers 1 B..256 KiB with window scaling, none/Reno/CUBIC, Nagle, delayed ACK, timestamps) joined by a link that drops, duplicates, delays, reorders and corrupts one byte per seeded fate schedule; every byte handed to either application is compared with the peer's byte at that stream offset and Finished is only accepted once the peer closed and everything was handed over. A third of the completed runs (and every run the applications abort half-way) reuse the same two sockets for further connections; keep-alive is on for a share of the sockets; half of the socket sets have a hole in front of the TCP socket. Evidence reports bytes compared, retransmissions, reorderings, corruptions and sequence wraps actually observed.",
+         "Trusted: the simulator and stream oracle (harness/src/sim/tcpsim.rs), the independent TCP/IP parser used for statistics. Corruption is single-byte (always detected). Executions not generated are not judged; ISN wrap coverage comes from a committed table of seeds that is re-measured on the tree under test (counted in evidence).",
          "DESIGN.md §4 C01"),
  "C02": ("runtime monitor: poll_at-driven two-endpoint simulation with a per-step safety invariant (finite deadline while SYN/FIN/data unacknowledged), a quiescence check and a bounded-progress check in virtual time",
          "Exploration by runtime monitoring: the same simulation polled only on frame arrival and at the instant poll_at last returned. (I) after every poll a socket with an unacknowledged SYN/FIN or queued data must report a finite deadline; (Q) an execution with nothing in flight, no deadline and no enabled application action must be complete; (B) once the network is reliable, some observable progress at least every 900 virtual seconds until all bytes are delivered and both sockets are CLOSED/TIME-WAIT. Liveness is restated as bounded progress; slower livelocks are out of reach.",
